@@ -53,3 +53,12 @@ func main() {
 		os.Exit(2)
 	}
 }
+
+// repoRoot is where the code under test was built from: /repo, or a scratch copy during development
+// (VERIF_REPO); stack frames are reported relative to it.
+func repoRoot() string {
+	if r := os.Getenv("VERIF_REPO"); r != "" {
+		return r
+	}
+	return "/repo"
+}
